@@ -1,0 +1,26 @@
+//go:build verif
+// +build verif
+
+package model
+
+// VerifEvent is handed to VerifHook at the decision pipeline's step boundaries.
+// It carries pointers to the live objects; the hook owner decides what to record.
+type VerifEvent struct {
+	Kind     string // "parsed", "bias", "evaluate"
+	Index    int    // position among the enabled biases (Kind == "bias")
+	Fired    bool
+	DM       *DecisionMaker
+	Original *DecisionMakingParams
+	Before   *DecisionMakingParams
+	After    *DecisionMakingParams
+	Report   interface{}
+}
+
+// VerifHook is nil unless a verification harness installs it; it may block.
+var VerifHook func(ev VerifEvent)
+
+func verifStep(ev VerifEvent) {
+	if h := VerifHook; h != nil {
+		h(ev)
+	}
+}
